@@ -74,7 +74,31 @@ func genHistCase(t *rapid.T, prop string) *Case {
 	return &Case{World: wd, Hist: hc}
 }
 
+// footerAccessors are the header/footer observations *ice.Segment offers
+// beyond the segment API.
+type footerAccessors interface {
+	CRC() uint32
+	Version() uint32
+	ChunkMode() uint32
+	NumDocs() uint64
+	FieldsIndexOffset() uint64
+	StoredIndexOffset() uint64
+	DocValueOffset() uint64
+	Size() int
+	Type() string
+}
+
+func footerSnapshot(seg segment.Segment) string {
+	fa, ok := seg.(footerAccessors)
+	if !ok {
+		return ""
+	}
+	return fmt.Sprintf("CRC=%#08x Version=%d ChunkMode=%d NumDocs=%d FieldsIndexOffset=%d StoredIndexOffset=%d DocValueOffset=%d Size=%d Type=%s",
+		fa.CRC(), fa.Version(), fa.ChunkMode(), fa.NumDocs(), fa.FieldsIndexOffset(), fa.StoredIndexOffset(), fa.DocValueOffset(), fa.Size(), fa.Type())
+}
+
 type immSeg struct {
+	footer string
 	seg    segment.Segment
 	obs    *model.Obs
 	bytes  []byte
@@ -104,6 +128,7 @@ func runHistCase(c *Case, env *Env) *Result {
 
 	var pool []*immSeg
 	snapshot := func(seg segment.Segment, mem []byte, name string) (*immSeg, *Fail) {
+		fs := footerSnapshot(seg)
 		o, f := Observe("C15", seg, ObsOpts{})
 		if f != nil {
 			return nil, f
@@ -112,7 +137,8 @@ func runHistCase(c *Case, env *Env) *Result {
 		if pi != nil || err != nil {
 			return nil, apiFail("C04", "world", "WriteTo", pi, err)
 		}
-		return &immSeg{seg: seg, obs: o, bytes: b, mem: mem, fields: o.Fields, name: name}, nil
+		// taken before the first WriteTo: persisting must not change it either
+		return &immSeg{seg: seg, obs: o, bytes: b, mem: mem, fields: o.Fields, name: name, footer: fs}, nil
 	}
 	for _, ws := range w.Segs {
 		is, f := snapshot(ws.Seg, ws.Mem, fmt.Sprintf("world seg %d (%s)", ws.Idx, ws.Def.Store))
@@ -257,6 +283,10 @@ func runHistCase(c *Case, env *Env) *Result {
 		}
 		if d := model.Diff(o, is.obs); d != "" {
 			res.Fail = mismatch("C15", "immutability", "observation:"+sectionOf(d), fmt.Sprintf("%s changed during a history of %d operations: %s", is.name, len(c.Hist.Ops), d))
+			return res
+		}
+		if fs := footerSnapshot(is.seg); fs != is.footer {
+			res.Fail = mismatch("C15", "immutability", "footer-accessors", fmt.Sprintf("%s: header accessors changed during the history: before {%s} after {%s}", is.name, is.footer, fs))
 			return res
 		}
 		b, _, pi, err := Persist(is.seg, sched)
